@@ -86,7 +86,7 @@ def gen_c01(tier, seed, native=True):
         oshapes = OSHAPES[:4] if entry not in (2, 3) else OSHAPES
         for i in ishapes:
             for o in oshapes:
-                reps = 2 if tier == "quick" else 6
+                reps = 2 if tier == "quick" else 30
                 for _ in range(reps):
                     d = base_cfg(rng, idx, entry=entry, small=(tier == "quick"))
                     if i:
@@ -108,7 +108,7 @@ def gen_c01(tier, seed, native=True):
                     out.append(line(d))
                     idx += 1
     # panic plans: the benchmarked function panics at every call index of the first two rounds; all threads alike
-    npanic = 60 if tier == "quick" else 600
+    npanic = 60 if tier == "quick" else 2000
     for _ in range(npanic):
         entry = rng.randrange(6)
         d = base_cfg(rng, idx, entry=entry, small=True)
